@@ -149,7 +149,7 @@ Emit(ev) == emit' = ev /\ log' = Append(log, ev)
 Unch_ip   == UNCHANGED <<cv, ips>>
 Unch_misc == UNCHANGED <<prog, ost, status, nx, ns>>
 
-IsFault(n)   == prog.fault.at = n /\ n > 0
+IsFault(n)   == n > 0 /\ (prog.fault.at = n \/ \E j \in DOMAIN prog.fault.more : prog.fault.more[j] = n)
 
 UsrFrame(u, id, o, a, role, n, owner) == [Frame("usr", u, id, o, a, 0, role) EXCEPT !.fid = n, !.g = owner]
 
@@ -222,7 +222,7 @@ CondPhase(t, fr, ph, L, next) ==
          ELSE IF r.v = 2 /\ ~FN(fr.f).async
            THEN Leave(t, fr, Raise("ValueError", fr.c))       \* coroutine object on a sync callable
          ELSE IF r.v = 3
-           THEN Leave(t, fr, Raise("ValueError", fr.c))       \* truth test of the result failed (chained)
+           THEN Leave(t, fr, Raise("ValueErrorC", fr.c))      \* truth test of the result failed (chained)
          ELSE IF r.v = 4 /\ ~SwFutureNotAwaited /\ ~TruthArg(fr.c, fr.a)
            THEN Goto(t, [fr EXCEPT !.sub = "err"])              \* an awaitable result is awaited, then judged
          ELSE IF r.v # 0
@@ -251,7 +251,7 @@ CondPhase(t, fr, ph, L, next) ==
     [] fr.sub = "reeval" ->
          IF r.k = "raise"
            THEN IF r.cls = "Exception"
-                  THEN Leave(t, fr, Raise("RuntimeError", fr.c))         \* "Failed to recompute", chained
+                  THEN Leave(t, fr, Raise("RuntimeErrorC", fr.c))        \* "Failed to recompute", chained
                   ELSE Leave(t, fr, r)                                  \* BaseException passes through
            ELSE Goto(t, [fr EXCEPT !.sub = "repr"])
     [] fr.sub = "repr" ->
@@ -485,7 +485,7 @@ UsrStep(t) ==
               /\ reg' = [reg EXCEPT ![t] = NoOut]
               /\ status' = [status EXCEPT ![t] = "susp"]
               /\ ns' = ns + 1
-              /\ Emit(Ev("susp", t, fr.f, 0, 0, 0, "", <<>>, 0, fr.u, FALSE))
+              /\ Emit(Ev("susp", t, 0, 0, 0, 0, "", <<>>, 0, fr.u, FALSE))
               /\ Unch_ip /\ UNCHANGED <<prog, ost, nx>>
          [] op.when \in {0, fr.a} /\ op.op = "spawn" ->
               \* start task op.f; op.a = 1: its context is a copy of this task's context, 0: a fresh context
